@@ -106,6 +106,7 @@ func NewSched(seed uint64) *Sched {
 		foreignN: map[string]int{},
 		SiteHits: map[string]int{},
 	}
+	dead.Store(false)
 	cur.Store(s)
 	return s
 }
@@ -114,6 +115,14 @@ func NewSched(seed uint64) *Sched {
 func (s *Sched) Stop() {
 	cur.CompareAndSwap(s, nil)
 }
+
+var dead atomic.Bool
+
+// Kill declares the run dead: goroutines still polling for a model lock end.
+func (s *Sched) Kill() { dead.Store(true) }
+
+// Dead reports whether the last run has been declared dead.
+func Dead() bool { return dead.Load() }
 
 // Current returns the active scheduler or nil.
 func Current() *Sched { return cur.Load() }
@@ -527,6 +536,16 @@ func (s *Sched) FreeRun() {
 	for _, t := range rel {
 		t.wake <- grant{free: true}
 	}
+}
+
+// GIDOf returns the goroutine id of the named task (0 if unknown).
+func (s *Sched) GIDOf(name string) uint64 {
+	mu.Lock()
+	defer mu.Unlock()
+	if t := s.byName[name]; t != nil {
+		return t.gid
+	}
+	return 0
 }
 
 // Live returns the names of tasks that have not exited.
